@@ -11,6 +11,7 @@ import (
 	"path/filepath"
 	"runtime"
 	"runtime/debug"
+	"strings"
 	"sync"
 )
 
@@ -79,6 +80,7 @@ func Guard(f func()) (o Outcome) {
 	func() {
 		defer func() {
 			if r := recover(); r != nil {
+				rethrowRapid(r)
 				o.Panic = r
 				o.Stack = string(debug.Stack())
 			}
@@ -94,12 +96,21 @@ func Guard(f func()) (o Outcome) {
 func GuardLite(f func()) (o Outcome) {
 	defer func() {
 		if r := recover(); r != nil {
+			rethrowRapid(r)
 			o.Panic = r
 			o.Stack = string(debug.Stack())
 		}
 	}()
 	f()
 	return
+}
+
+// rethrowRapid lets rapid's own control-flow panics (a failed or skipped case, invalid data while
+// shrinking) pass through a guard: they are not panics of the code under test.
+func rethrowRapid(r any) {
+	if strings.HasPrefix(fmt.Sprintf("%T", r), "rapid.") {
+		panic(r)
+	}
 }
 
 func (o Outcome) String() string {
